@@ -37,11 +37,13 @@ TStep == /\ l <= Len(Tr.events)
                 q == Step(Tr.srcs[e.site], sts[e.site], Uf, e)
                 abort == q.res \in {"TE", "UE", "EX"} \/ (e.assert /\ q.res = "F")
             IN /\ sts' = [sts EXCEPT ![e.site] = q.st]
-               /\ tst' = [tst EXCEPT ![e.t] = [miss |-> @.miss + q.miss, inc |-> @.inc + q.inc, aborted |-> @.aborted \/ abort]]
+               \* (e.t = 0: a statement at module level, outside of every test - no test is charged for it)
+               /\ tst' = IF e.t = 0 THEN tst
+                         ELSE [tst EXCEPT ![e.t] = [miss |-> @.miss + q.miss, inc |-> @.inc + q.inc, aborted |-> @.aborted \/ abort]]
                \* the observed outcome of the statement; a statement observed after the model aborted the test
                \* is a mismatch as well
                /\ bad' = IF q.res # e.res THEN Append(bad, <<l, "result", q.res, e.res>>)
-                         ELSE IF tst[e.t].aborted THEN Append(bad, <<l, "executed-after-abort", q.res, e.res>>)
+                         ELSE IF e.t # 0 /\ tst[e.t].aborted THEN Append(bad, <<l, "executed-after-abort", q.res, e.res>>)
                          ELSE bad
          /\ l' = l + 1 /\ UNCHANGED tid
 TSpec == TInit /\ [][TStep]_tvars
